@@ -6009,6 +6009,17 @@ class CodegenCtx:
             result.add(f"return {self.program_name.upper()}_OK;")
         return result.value()
 
+    def _emitted_transitions_pointing_to(self, target_state: DFState):
+        """
+        All transitions into target_state for which code is emitted. Every state in the list gets a case block - also states
+        that are no longer reachable when they were not removed (-O0) - so their gotos need their labels too.
+        """
+
+        for state in self.dfa.states:
+            for transition in state.all_transitions():
+                if transition.target == target_state:
+                    yield transition
+
     def _needs_end_check(self):
         if ProgramData.do(ProgramFlag.ZERO_LEN_INPUT_SUPPORT):
             return True
@@ -6039,11 +6050,11 @@ class CodegenCtx:
                 # Emit the case label
                 contents.add(f"case {idx}:")
                 # Emit goto target for fallthroughs if anything falls here (these are separate to make it slightly easier to read)
-                if any(x.is_fallthrough and self._transition_will_directly_jump(x, excl_fall=True) for x in self.dfa.transitions_pointing_to(state)):
+                if any(x.is_fallthrough and self._transition_will_directly_jump(x, excl_fall=True) for x in self._emitted_transitions_pointing_to(state)):
                     contents.add(f"fall_{idx}:")
                 # If any transition can directly jump into this case, emit a label for it to do so. We don't really _need_ these checks
                 # but gcc complains about unused labels in -Wall.
-                if any(self._transition_will_directly_jump(x) for x in self.dfa.transitions_pointing_to(state) if x.on_values != {DFTransition.End}):
+                if any(self._transition_will_directly_jump(x) for x in self._emitted_transitions_pointing_to(state) if x.on_values != {DFTransition.End}):
                     contents.add(f"jpto_{idx}:")
                 with contents as state_body:
                     # Is this a normal state
@@ -6092,7 +6103,7 @@ class CodegenCtx:
                 # Emit the case label
                 contents.add(f"case {idx}:")
                 # Emit goto target for fallthroughs if anything falls here (these are separate to make it slightly easier to read)
-                if any(x.is_fallthrough for x in self.dfa.transitions_pointing_to(state)):
+                if any(x.is_fallthrough for x in self._emitted_transitions_pointing_to(state)):
                     contents.add(f"fall_{idx}:")
                 with contents as state_body:
                     # Is this a normal state
